@@ -87,8 +87,14 @@ fn body_stream(op: &Value) -> StreamingBlob {
         frames.truncate(k as usize);
         frames.push(Err(std::io::Error::other("injected body error")));
     }
-    StreamingBlob::wrap(futures::stream::iter(frames))
+    // BODY_DRAINED: set when the consumer has taken every frame and asked once more (it has seen the end of the body)
+    BODY_DRAINED.store(false, Ordering::SeqCst);
+    StreamingBlob::wrap(futures::stream::iter(frames).chain(futures::stream::poll_fn(|_| {
+        BODY_DRAINED.store(true, Ordering::SeqCst);
+        std::task::Poll::Ready(None)
+    })))
 }
+pub static BODY_DRAINED: std::sync::atomic::AtomicBool = std::sync::atomic::AtomicBool::new(false);
 
 fn meta_str(m: &Option<Metadata>) -> String {
     match m {
@@ -457,7 +463,8 @@ pub fn run_c19(case: &Value) -> Value {
                     Some(o) => exp_out.push(format!("completed:{o}")),
                     None => {
                         drop(fut);
-                        exp_out.push("dropped".into());
+                        // where the request was when it was abandoned: still reading its body, or past the end of it
+                        exp_out.push(if BODY_DRAINED.load(Ordering::SeqCst) { "dropped:drained".into() } else { "dropped".into() });
                     }
                 }
                 tokio::time::sleep(std::time::Duration::from_millis(15)).await;
